@@ -225,7 +225,7 @@ PROPS = {
         "level_note": "Two open known findings: the wake precedes the release in SharedFd::drop (T); a Close request still unsubmitted or queued when the runtime is dropped never runs (K).",
     },
     "C14": {
-        "title": "Socket transports deliver exactly what was sent (byte streams over pipes, Unix stream sockets and loopback TCP; datagram and accept-once parts: see level_note)",
+        "title": "Socket transports deliver exactly what was sent",
         "engine": "K",
         "package": "check-k",
         "bin": "check-k",
@@ -239,12 +239,13 @@ PROPS = {
         "real": K_REAL,
         "stub": K_STUB,
         "assumptions": K_ASSUME + [
+            "loopback TCP: a connection reaches the accept queue a moment after connect() returns; the harness waits for it (tcpi_unacked of the listener) before going on, and tells TCP clients apart by source port, so that no run depends on softirq timing",
             "a multishot read stream is consumed until it ends by itself; dropping it early discards data the kernel already took off the socket (inherent to multishot receive), which this check does not count as loss",
             "a managed/multishot read that reports pool exhaustion (ResourceBusy) is retried",
         ],
         "level_text": ("Seeded exploration of kernel behaviours under 1-3 concurrent channels (pipe / Unix stream / loopback TCP) with write, write_vectored, zero-copy write against read, read_vectored, managed read and multishot read: "
                        "the receiver's byte sequence equals the sender's and is followed by end of stream after shutdown; submitted buffers come back identical; nothing is left pending; no ring leaks."),
-        "level_note": "Stream half of C14. Datagram sockets (truncation, source address, MSG_TRUNC flag) and accept-exactly-once are not exercised by this check yet. The simulated kernel's fidelity is checked by running compio's own 217 tests on it (tools/fidelity.sh): all pass.",
+        "level_note": "Three scenarios: streams (every read/write flavour, split halves, shutdown), datagrams (UDP: every send and receive flavour incl. vectored, msg, managed and the two multishot streams; truncation to the buffer, source address, MSG_TRUNC flag; a datagram may be lost with a stream dropped early, never duplicated, reordered or altered) and accepts (TCP and Unix listeners, single accepts or one multishot stream: every client is accepted exactly once). Unix datagram sockets are not exercised. The simulated kernel's fidelity is checked by running compio's own 217 tests on it (tools/fidelity.sh): all pass.",
     },
     "C01": {
         "title": "In-flight operations keep their memory and descriptors alive",
